@@ -7,17 +7,18 @@ deletion steps on the table list (`vtable.DeleteVirtualTable`) and on the rotate
 (`metadata.DeleteVirtualTable`).  The model is `SigModel.Tenant` (Model/Tenant.lean); it is tied to the
 Go code by the correspondence suite `tenant`.
 
-Results:
-  1. `expand_only_own_org`        (holds)  every returned name is a table or alias target of the requesting
-                                           organisation, or text of the expression itself (characterised exactly).
-  2. `ExpandSoundGlob`            (FALSE)  "every returned name is named by the expression under glob semantics":
-        `expand_sound_glob_counterexample` (`logs.2*` returns `logsX2024`: the literal parts are not quoted),
-        `expand_sound_glob_partial` under the guard `plainWildcards`, key lemma `implMatch_eq_glob`.
-  3. `select_only_named_org`, `select_only_named_org_unrotated`, `search_sees_only_own_org`  (hold).
-  4. `delete_exact`, `delete_other_org_unaffected`  (hold, table list).
-  5. `DeleteSegmentsExact`        (FALSE)  "deleting index t of org o removes exactly the segments of (o,t)
-        from the rotated-segment view": `delete_segments_exact_counterexample` (another organisation's index of the
-        same name disappears too), exact effect `delete_segments_effect`, `delete_segments_exact_partial`.
+Results (all hold for the code as it is now; items 2 and 5 were FALSE before the two `fix:` commits of C13,
+see known_findings.txt — the former behaviour is kept as `…Old` definitions with their counterexamples):
+  1. `expand_only_own_org`        every returned name is a table or alias target of the requesting
+                                  organisation, or text of the expression itself (characterised exactly).
+  2. `expand_sound_glob`          every returned name is named by the expression under glob semantics
+                                  (`*` = any string, every other character literal); key lemma `implMatch_eq_glob`;
+                                  `implMatchOld_counterexample` (`logs.2*` matched `logsX2024` when unquoted).
+  3. `select_only_named_org`, `select_only_named_org_unrotated`, `search_sees_only_own_org`.
+  4. `delete_exact`, `delete_other_org_unaffected`  (table list).
+  5. `delete_segments_exact`      deleting index t of org o removes exactly the segments of (o,t) from the
+                                  rotated-segment view; `deleteTableOld_counterexample` (another organisation's
+                                  index of the same name used to disappear too).
 -/
 import SigModel.Model.Tenant
 import SigModel.Lemmas.C13
@@ -81,7 +82,7 @@ example : expand "remote:logs*".toList 1 false
 (harmless only because the segment selection filters on the organisation, theorem 3) -/
 example : expand "secret".toList 1 false [(2, "secret".toList)] [] = ["secret".toList] := by decide +kernel
 
-/-! ## 2. Every returned name is named by the expression (glob semantics) — FALSE as coded -/
+/-! ## 2. Every returned name is named by the expression (glob semantics) -/
 
 /-- `x` is named by the expression when `*` is a wildcard and EVERY other character is literal: the
 expression is `*`, or some element of the comma list glob-matches `x`, or glob-matches an alias of the
@@ -90,13 +91,6 @@ def NamedByGlob (expr : Name) (org : Org) (A : List AliasEntry) (x : Name) : Pro
   stripColon expr = ['*'] ∨
   ∃ elem ∈ splitOn ',' (stripColon expr),
     globMatch elem x = true ∨ ∃ e ∈ A, e.org = org ∧ globMatch elem e.alias = true ∧ x ∈ e.targets
-
-instance (expr : Name) (org : Org) (A : List AliasEntry) (x : Name) : Decidable (NamedByGlob expr org A x) := by
-  unfold NamedByGlob; infer_instance
-
-instance (expr : Name) (org : Org) (es : Bool) (T : List (Org × Name)) (A : List AliasEntry) (x : Name) :
-    Decidable (Fallback expr org es T A x) := by
-  unfold Fallback; infer_instance
 
 /-- table and alias names are lines of text (the table list is a line-oriented file) -/
 def NoNewlines (T : List (Org × Name)) (A : List AliasEntry) : Prop :=
@@ -107,40 +101,17 @@ def ExpandSoundGlob : Prop :=
   ∀ (expr : Name) (org : Org) (es : Bool) (T : List (Org × Name)) (A : List AliasEntry), NoNewlines T A →
     ∀ x ∈ expand expr org es T A, NamedByGlob expr org A x ∨ Fallback expr org es T A x
 
-/-- C13.2 is FALSE for the code as it is: the wildcard element is turned into a regular expression
-without quoting its literal parts, so `logs.2*` also selects the index `logsX2024`. -/
-theorem expand_sound_glob_counterexample : ¬ ExpandSoundGlob := by
-  intro h
-  have h1 := h "logs.2*".toList 1 false [(1, "logsX2024".toList)] []
-    (by constructor <;> decide +kernel) "logsX2024".toList (by decide +kernel)
-  revert h1
-  decide +kernel
-
-/-- further witnesses of the same class: `|` makes the anchors apply to one alternative only, a trailing
-backslash swallows the end anchor, `+`/`?` are repetition operators -/
-example : expand "zzz|*".toList 1 false [(1, "prod".toList)] [] = ["prod".toList] := by decide +kernel
-example : expand "lo*\\".toList 1 false [(1, "logs$".toList)] [] = ["logs$".toList] := by decide +kernel
-example : expand "a+b*".toList 1 false [(1, "aaab".toList), (1, "a+b".toList)] [] = ["aaab".toList] := by decide +kernel
-/-- an element that does not compile (`(`) empties the WHOLE answer, other elements included -/
-example : expand "logs,a(*".toList 1 false [(1, "logs".toList)] [] = [] := by decide +kernel
-
-/-- guard: the non-`*` characters of every wildcard element are ordinary characters (none of
-`. + ? ( ) [ ] | ^ $ \ { }`) -/
-def plainWildcards (expr : Name) : Bool :=
-  (splitOn ',' (stripColon expr)).all (fun e => !containsStar e || plainElem e)
-
-/-- KEY LEMMA (re-stated from Lemmas.C13): under the guard the code's regular expression — compiled
-from `"^" + ReplaceAll(elem, "*", ".*") + "$"` and used with the unanchored `Match` — decides exactly
-the glob match. -/
-theorem implMatch_eq_glob (elem name : Name) (h : plainElem elem = true) (hn : ∀ c ∈ name, c ≠ '\n') :
+/-- KEY LEMMA (re-stated from Lemmas.C13): for EVERY wildcard element — whatever characters it contains —
+the code's regular expression, compiled from `"^" + Join(QuoteMeta(parts), ".*") + "$"` and used with
+the unanchored `Match`, compiles and decides exactly the glob match. -/
+theorem implMatch_eq_glob (elem name : Name) (hn : ∀ c ∈ name, c ≠ '\n') :
     implMatch elem name = some (globMatch elem name) :=
-  Lemmas.C13.implMatch_eq_glob elem name h hn
+  Lemmas.C13.implMatch_eq_glob elem name hn
 
-/-- C13.2 (partial) Under the guard, for EVERY state, organisation and expression, every returned name is
-named by the expression under glob semantics (or is the fallback). -/
-theorem expand_sound_glob_partial (expr : Name) (org : Org) (es : Bool) (T : List (Org × Name)) (A : List AliasEntry)
-    (hg : plainWildcards expr = true) (hnl : NoNewlines T A) (x : Name) (hx : x ∈ expand expr org es T A) :
-    NamedByGlob expr org A x ∨ Fallback expr org es T A x := by
+/-- C13.2 For EVERY state, organisation and expression, every returned name is named by the expression
+under glob semantics (or is the fallback). -/
+theorem expand_sound_glob : ExpandSoundGlob := by
+  intro expr org es T A hnl x hx
   obtain ⟨l, hc, h⟩ := mem_expand expr org es T A x hx
   rcases h with ⟨rfl, hxe, hex⟩ | hxl
   · exact Or.inr ⟨hxe, hc, hex⟩
@@ -151,20 +122,14 @@ theorem expand_sound_glob_partial (expr : Name) (org : Org) (es : Bool) (T : Lis
     · simp only [hstar, if_false] at hc
       obtain ⟨elem, helem, le, hle, hxle⟩ := (mem_collectElems _ _ l hc x).1 hxl
       refine Or.inr ⟨elem, helem, ?_⟩
-      rcases mem_expandElem org T A elem le hle x hxle with ⟨hs, re, hre, h | h⟩ | ⟨_, e, he, ho, ha, hxt⟩ | ⟨_, _, rfl⟩
+      rcases mem_expandElem org T A elem le hle x hxle with ⟨_, re, hre, h | h⟩ | ⟨_, e, he, ho, ha, hxt⟩ | ⟨_, _, rfl⟩
       · -- wildcard element matching an alias
         obtain ⟨e, he, ho, hm, hxt⟩ := h
-        have hp : plainElem elem = true := by
-          have := (List.all_eq_true.1 hg) elem helem
-          simpa [hs] using this
-        have := Lemmas.C13.implMatch_eq_glob elem e.alias hp (hnl.2 e he)
+        have := Lemmas.C13.implMatch_eq_glob elem e.alias (hnl.2 e he)
         simp only [implMatch, hre, Option.map_some, Option.some.injEq] at this
         exact Or.inr ⟨e, he, ho, by rw [← this]; exact hm, hxt⟩
       · -- wildcard element matching a table
-        have hp : plainElem elem = true := by
-          have := (List.all_eq_true.1 hg) elem helem
-          simpa [hs] using this
-        have := Lemmas.C13.implMatch_eq_glob elem x hp (hnl.1 (org, x) h.1)
+        have := Lemmas.C13.implMatch_eq_glob elem x (hnl.1 (org, x) h.1)
         simp only [implMatch, hre, Option.map_some, Option.some.injEq] at this
         exact Or.inl (by rw [← this]; exact h.2)
       · -- plain element that is an alias
@@ -172,13 +137,25 @@ theorem expand_sound_glob_partial (expr : Name) (org : Org) (es : Bool) (T : Lis
       · -- plain element handed through verbatim
         exact Or.inl (globMatch_self _)
 
-/-- the guard is satisfiable by ordinary expressions, with a non-trivial answer -/
-example : plainWildcards "c:logs*, prod-*,*_2024".toList = true := by decide +kernel
+/-- a wildcard element never fails to compile any more (before the fix `a(*` emptied the whole answer) -/
+theorem wildcard_always_compiles (elem : Name) : (compile (regexSrc elem)).isSome = true := by
+  simp [Lemmas.C13.compile_quoted]
+
+/-- non-vacuity: metacharacters in the literal parts are literal now, prefix-related names are kept apart -/
+example : expand "logs.2*".toList 1 false [(1, "logsX2024".toList), (1, "logs.2024".toList), (2, "logs.2".toList)] []
+    = ["logs.2024".toList] := by decide +kernel
 example : expand "logs*".toList 1 false
     [(1, "logs".toList), (1, "logs2".toList), (1, "logsX2024".toList), (1, "log".toList), (2, "logs3".toList)] []
     = ["logs".toList, "logs2".toList, "logsX2024".toList] := by decide +kernel
-/-- ... and it excludes the counterexample -/
-example : plainWildcards "logs.2*".toList = false := by decide +kernel
+example : expand "logs,a(*".toList 1 false [(1, "logs".toList), (1, "a(b".toList)] [] = ["a(b".toList, "logs".toList] := by
+  decide +kernel
+
+/-- the behaviour BEFORE the fix (`regexSrcOld`: literal parts not quoted): the test for `logs.2*` accepted
+`logsX2024`, which the glob pattern does not match; `zzz|*` accepted everything. -/
+theorem implMatchOld_counterexample :
+    implMatchOld "logs.2*".toList "logsX2024".toList = some true ∧ globMatch "logs.2*".toList "logsX2024".toList = false ∧
+    implMatchOld "zzz|*".toList "prod".toList = some true ∧ globMatch "zzz|*".toList "prod".toList = false := by
+  decide +kernel
 
 /-! ## 3. Segment selection admits exactly the named tables of the requesting organisation -/
 
@@ -192,14 +169,7 @@ theorem select_only_named_org (qlo qhi : Int) (names : List Name) (org : Org) (s
     (hd : DistinctKeys segs) (s : Seg) :
     s ∈ selectRotated qlo qhi names org (Meta.ofList segs) ↔
       s ∈ segs ∧ s.table ∈ names ∧ s.org = org ∧ overlaps qlo qhi s = true := by
-  rw [mem_selectRotated]
-  have hi := inv_ofList segs hd
-  constructor
-  · rintro ⟨n, hn, hs, ho, hq⟩
-    have := (hi.tbl n s).1 hs
-    exact ⟨this.1, by rw [this.2]; exact hn, hq, ho⟩
-  · rintro ⟨h1, h2, h3, h4⟩
-    exact ⟨s.table, h2, (hi.tbl s.table s).2 ⟨h1, rfl⟩, h4, h3⟩
+  exact mem_selectRotated_inv (inv_ofList segs hd) qlo qhi names org s
 
 /-- C13.3 (unrotated segments, `FilterUnrotatedSegmentsInQuery`) -/
 theorem select_only_named_org_unrotated (qlo qhi : Int) (names : List Name) (org : Org) (segs : List Seg) (s : Seg) :
@@ -268,60 +238,41 @@ theorem delete_other_org_unaffected (org : Org) (name : Name) (T : List (Org × 
 example : deleteTable 1 "logs".toList [(1, "logs".toList), (1, "logs2".toList), (2, "logs".toList), (1, "log".toList)]
     = [(1, "logs2".toList), (2, "logs".toList), (1, "log".toList)] := by decide +kernel
 
-/-! ## 5. Deleting an index from the rotated-segment metadata — NOT exact as coded -/
+/-! ## 5. Deleting an index from the rotated-segment metadata removes exactly that (organisation, index) -/
 
 /-- the full-strength statement: after `metadata.DeleteVirtualTable(t, o)` a segment is selected iff it was
-selected before and is not a segment of index `t` of organisation `o` -/
+selected before and is not a segment of index `t` of organisation `o`.  (`t ≠ []`: an index has a name —
+`deleteSegmentKeyWithLock` uses the empty table name as its "not found" marker.) -/
 def DeleteSegmentsExact : Prop :=
-  ∀ (segs : List Seg), DistinctKeys segs → ∀ (t : Name) (o : Org) (qlo qhi : Int) (names : List Name) (org : Org) (s : Seg),
+  ∀ (segs : List Seg), DistinctKeys segs → ∀ (t : Name), t ≠ [] → ∀ (o : Org) (qlo qhi : Int) (names : List Name) (org : Org) (s : Seg),
     s ∈ selectRotated qlo qhi names org ((Meta.ofList segs).deleteTable t o) ↔
       (s ∈ selectRotated qlo qhi names org (Meta.ofList segs) ∧ ¬ (s.table = t ∧ s.org = o))
 
-/-- C13.5 is FALSE for the code as it is: `deleteTable` drops the table's whole entry of
-`tableSortedMetadata`, which is keyed by the table NAME only; the same-named index of another organisation
-is no longer found by any search. -/
-theorem delete_segments_exact_counterexample : ¬ DeleteSegmentsExact := by
-  intro h
-  have h1 := h [⟨1, "logs".toList, 1, 0, 10⟩, ⟨2, "logs".toList, 2, 0, 10⟩] (by simp [Lemmas.C13.DistinctKeys])
-    "logs".toList 1 0 100 ["logs".toList] 2 ⟨2, "logs".toList, 2, 0, 10⟩
-  revert h1
-  decide +kernel
-
-/-- the exact effect, for every state: what remains visible is what was visible minus EVERY segment whose
-table is named `t`, whatever its organisation.  (So the data of the deleted index is indeed gone from the
-view — but so is every other organisation's index of that name.) -/
-theorem delete_segments_effect (segs : List Seg) (hd : DistinctKeys segs) (t : Name) (o : Org)
-    (qlo qhi : Int) (names : List Name) (org : Org) (s : Seg) :
-    s ∈ selectRotated qlo qhi names org ((Meta.ofList segs).deleteTable t o) ↔
-      (s ∈ selectRotated qlo qhi names org (Meta.ofList segs) ∧ s.table ≠ t) := by
-  rw [select_only_named_org qlo qhi names org segs hd s, mem_selectRotated]
+/-- C13.5 For every set of segments: the data of the deleted index is gone from the view, and every other
+(organisation, index) — same-named indexes of other organisations and prefix-related names included — is
+selected exactly as before. -/
+theorem delete_segments_exact : DeleteSegmentsExact := by
+  intro segs hd t ht o qlo qhi names org s
   have hi := inv_ofList segs hd
+  have hdel := inv_deleteTable hi (keyInj_of_distinct hd) t ht o
+  rw [mem_selectRotated_inv hdel, mem_selectRotated_inv hi]
   constructor
-  · rintro ⟨n, hn, hs, hq, ho⟩
-    have := (lookupT_deleteTable hi hd t o n s).1 hs
-    exact ⟨⟨this.2.1, by rw [this.2.2]; exact hn, ho, hq⟩, by rw [this.2.2]; exact this.1⟩
-  · rintro ⟨⟨h1, h2, h3, h4⟩, h5⟩
-    exact ⟨s.table, h2, (lookupT_deleteTable hi hd t o s.table s).2 ⟨h5, h1, rfl⟩, h4, h3⟩
+  · rintro ⟨⟨h1, h2⟩, h3, h4, h5⟩; exact ⟨⟨h1, h3, h4, h5⟩, h2⟩
+  · rintro ⟨⟨h1, h3, h4, h5⟩, h2⟩; exact ⟨⟨h1, h2⟩, h3, h4, h5⟩
 
-/-- C13.5 (partial) Under the guard "no other organisation holds segments of an index named `t`" the
-deletion is exact. -/
-theorem delete_segments_exact_partial (segs : List Seg) (hd : DistinctKeys segs) (t : Name) (o : Org)
-    (hg : ∀ x ∈ segs, x.table = t → x.org = o)
-    (qlo qhi : Int) (names : List Name) (org : Org) (s : Seg) :
-    s ∈ selectRotated qlo qhi names org ((Meta.ofList segs).deleteTable t o) ↔
-      (s ∈ selectRotated qlo qhi names org (Meta.ofList segs) ∧ ¬ (s.table = t ∧ s.org = o)) := by
-  rw [delete_segments_effect segs hd t o qlo qhi names org s]
-  constructor
-  · rintro ⟨h1, h2⟩; exact ⟨h1, fun h => h2 h.1⟩
-  · rintro ⟨h1, h2⟩
-    refine ⟨h1, fun ht => h2 ⟨ht, ?_⟩⟩
-    have := (select_only_named_org qlo qhi names org segs hd s).1 h1
-    exact hg s this.1 ht
-
-/-- the guard is satisfiable with a non-trivial deletion: prefix-related names and another organisation
-with differently named indexes keep their segments -/
+/-- non-vacuity: organisation 1 deletes `logs`; its `logs2` and `log` and organisation 2's `logs` stay visible -/
 example : (selectRotated 0 100 ["logs".toList, "logs2".toList, "log".toList] 1
     ((Meta.ofList [⟨1, "logs".toList, 1, 0, 10⟩, ⟨2, "logs2".toList, 1, 0, 10⟩, ⟨3, "log".toList, 1, 0, 10⟩,
-      ⟨4, "logs3".toList, 2, 0, 10⟩]).deleteTable "logs".toList 1)).map (·.key) = [2, 3] := by decide +kernel
+      ⟨4, "logs".toList, 2, 0, 10⟩]).deleteTable "logs".toList 1)).map (·.key) = [2, 3] := by decide +kernel
+example : (selectRotated 0 100 ["logs".toList] 2
+    ((Meta.ofList [⟨1, "logs".toList, 1, 0, 10⟩, ⟨4, "logs".toList, 2, 0, 10⟩]).deleteTable "logs".toList 1)).map (·.key) = [4] := by
+  decide +kernel
+
+/-- the behaviour BEFORE the fix (`Meta.deleteTableOld`: the table's whole name-keyed entry was dropped):
+after organisation 1 deleted `logs`, organisation 2's `logs` segment was no longer selected. -/
+theorem deleteTableOld_counterexample :
+    selectRotated 0 100 ["logs".toList] 2
+      ((Meta.ofList [⟨1, "logs".toList, 1, 0, 10⟩, ⟨4, "logs".toList, 2, 0, 10⟩]).deleteTableOld "logs".toList 1) = [] := by
+  decide +kernel
 
 end SigModel.Props.C13
